@@ -189,7 +189,7 @@ pub fn test_case(case: &TagCase) -> TestResult {
 }
 
 pub fn run(rep: &mut Report) {
-    let n = rep.n(40000, 400000);
+    let n = rep.n(40000, 2000000);
     rep.run_prop(
         "tags-vs-classifier",
         "generated models with 0-3 tag models (categories with 0/1/>=2 candidates, char and type \
